@@ -43,22 +43,21 @@ def make_op(o: int, nops: int, positions: List[int], curved: bool = True):
 
     pts = [pos_coords(p) for p in positions]
     op = cb.Loft(cb.Face(pts[:4]), cb.Face(pts[4:]))
-    if o == 1 and nops > 1:
-        # the first operation takes its cells across (axes 1 and 2) from its neighbour; on its own it cannot be graded -
-        # then neither can the fresh model
+    if nops == 1:
+        for a in range(3):
+            op.chop(a, count=2 + a)
+    elif o == nops:
         op.chop(0, count=2)
-    elif o == 2:
-        op.chop(0, count=2)
-        # cells of a given first size: the count (5 on the unit edges, 4 once a vertex at their near end has moved up) and
-        # the grading depend on the lengths of the edges at the time of writing
+        # the LAST operation of the row is the only one chopped across: cells of a given first size - the count (5 on the
+        # unit edges, 4 once a vertex at their near end has moved up) and the grading depend on the lengths of the edges at
+        # the time of writing
         op.chop(1, start_size=1 / 4.01, preserve="start_size")
         op.chop(2, count=4)
     else:
-        # every further operation takes its cells along axis 1 from the second one (directly or through the row)
+        # every other operation takes its cells across (axes 1 and 2) from its neighbour - directly or through another
+        # operation that does the same - and is added to the mesh before the chopped one; without the last operation the
+        # model cannot be graded (then neither can the fresh model)
         op.chop(0, count=2)
-        if nops == 1:
-            op.chop(1, count=3)
-        op.chop(2, count=4)
     if o == 1:
         op.set_patch("left", "inlet")
     if o == nops:
